@@ -336,4 +336,25 @@ theorem C11_renameLabelRef_fixed (old new lbl mdl : String) (moved : List String
 (regenerated on every run; finding F12 repaired) -/
 theorem C11_source_renameAppLabel_fixed : DEvo.Generated.renameAppLabelFixed = true := by decide
 
+/-! ## which app a label names -/
+
+/-- **an exact app id takes precedence over a legacy label**: whenever some app of the project has the id `x`,
+`getApp p x` is an app with id `x` - never another app that merely used to carry that label - wherever the two
+stand in the project -/
+theorem C11_getApp_id_first (p : ProjectSig) (x : String) (a : AppSig) (ha : a ∈ p.apps) (hid : a.id = x) :
+    ∃ b, p.getApp x = some b ∧ b.id = x := by
+  unfold ProjectSig.getApp
+  cases hf : p.apps.find? (fun a => a.id == x) with
+  | some b =>
+    refine ⟨b, rfl, ?_⟩
+    have := List.find?_some hf
+    simpa using this
+  | none =>
+    exfalso
+    have := List.find?_eq_none.mp hf a ha
+    simp [hid] at this
+
+/-- the source looks the id up first (read by the translator on every run) -/
+theorem C11_source_get_app_id_first : DEvo.Generated.getAppIdFirst = true := by decide
+
 end DEvo.Props.C11
